@@ -8,7 +8,8 @@ from c09 import _signal
 from common import Cmat, Cx, R, cfl, fl, max_rel_err
 
 LEAN_MODULES = ["PyomaVerif.Props.C08", "PyomaVerif.Props.C08Pipe", "PyomaVerif.Props.C08Unity", "PyomaVerif.Props.C08Ms", "PyomaVerif.Props.C08Perm",
-                "PyomaVerif.Props.C08PermPlscf"]
+                "PyomaVerif.Props.C08PermPlscf",
+                "PyomaVerif.Props.C08MixBell"]
 THEOREMS = [
     "PV.C08.C08_gain_hank_mm",
     "PV.C08.C08_gain_hank_R",
@@ -93,6 +94,16 @@ THEOREMS = [
     "PV.C08.C08_perm_plscf",
     "PV.C08.C08_perm_plscf_poles",
     "PV.C08.C08_perm_plscf_square",
+    # EFDD / FSDD under orthogonal mixing and channel permutation, end to end through the composed model efddMpe (Props/C08MixBell.lean)
+    "PV.C08MixBell.C08_mix_bell_admissible",
+    "PV.C08MixBell.C08_mix_svalsvec",
+    "PV.C08MixBell.C08_mix_first_stage",
+    "PV.C08MixBell.C08_mix_bell_lines",
+    "PV.C08MixBell.C08_mix_bell_one",
+    "PV.C08MixBell.C08_mix_bell",
+    "PV.C08MixBell.C08_mix_bell_estimates",
+    "PV.C08MixBell.C08_perm_is_mix",
+    "PV.C08MixBell.C08_perm_bell",
 ]
 RULE = (
     "metamorphic oracle on the real code: every algorithm class (FDD, EFDD, FSDD, SSIcov[cov_mm, cov_R], SSIdat, pLSCF[per, cor] and "
@@ -518,6 +529,39 @@ def _offset_cases(ctx, scale):
             return
 
 
+def _efdd_mix_cases(ctx, scale):
+    """EFDD and FSDD under orthogonal mixing (two cases in three) and channel permutation: Fn and Xi unchanged (what
+    C08_mix_bell states for the model: identical bell support, extrema, decrements), the returned shape is the mixed /
+    permuted shape up to scale (MAC) and has a unit largest component.  Both estimators of the spectral matrix."""
+    n0 = getattr(ctx, "_c08_n", 0)
+    for it in range(ctx.n(6, 36) * scale):
+        kind = ("EFDD", "FSDD")[it % 2]
+        tr = "orth" if it % 3 < 2 else "perm"
+        y, fs, p, sel, _ = _single_case(ctx, kind)
+        ctx._c08_n = n0  # the cycle of transformations of the main stream is not advanced by this one
+        y = np.asarray(y, dtype=float)
+        p["sd"] = ("per", "cor")[(it // 2) % 2]
+        inp = {"class": kind, "transformation": tr, "fs": fs, "params": dict(p), "sel": sel, "case": f"seed{ctx.seed}#mixbell{it}"}
+        try:
+            base = _run(kind, y, fs, p, sel)
+        except Exception as e:  # noqa: BLE001  (too few extrema for the fit on this record: nothing to compare)
+            ctx.skipped += 1
+            ctx.count(f"base_failed_{kind}_{type(e).__name__}")
+            continue
+        y2, fs2, p2, sel2, kf, rowmap, tinfo = _transform_single(ctx, y, fs, p, sel, tr)
+        inp["t"] = tinfo
+        try:
+            new = _run(kind, y2, fs2, p2, sel2)
+        except Exception as e:  # noqa: BLE001
+            ctx.oracle_cases += 1
+            ctx.violation(f"{kind}:{tr}:transformed-run-fails", f"{kind}: run on {tr}-transformed data raises {type(e).__name__}: {str(e)[:100]} while the original run succeeds", inp)
+            return
+        ctx.nontrivial.add((kind, "mixbell", tr, p["sd"]))
+        ctx.count(f"cases_mixbell_{kind}_{tr}")
+        if not _cmp_modes(ctx, base["modes"], new["modes"], kf, rowmap, f"{kind}:{tr}", inp):
+            return
+
+
 def oracle(ctx, scale):
     rng = ctx.rng
     for it in range(ctx.n(3, 20) * scale):
@@ -619,6 +663,8 @@ def oracle(ctx, scale):
                     return
         if it == 0:
             ctx.sample({"classes": SINGLE + MULTI, "example_params": {k: v for k, v in p.items()}})
+    if not ctx.violations:
+        _efdd_mix_cases(ctx, scale)
 
 
 def _corr_ac2mp_model(ctx, ssi, A, C, dt, tag, key):
